@@ -41,7 +41,7 @@ ASSUME HdrLaw
 MagicC == {"ok", "bad1", "bad2", "bad3", "bad4"}
 VersC  == {0, 1, 2}
 TypeC  == {0, 1, 2, 3, 4, 5, 6, 7, 8, 255}
-LenC   == {"zero", "trunc", "exact", "pad", "eof", "max1", "u32max", "innerhuge"}   \* innerhuge: well-framed, but a length prefix INSIDE the payload is absurd (2^26, 2^47, 2^64-1)
+LenC   == {"zero", "trunc", "exact", "pad", "eof", "max0", "max1", "u32max", "innerhuge"}   \* innerhuge: well-framed, but a length prefix INSIDE the payload is absurd (2^26, 2^47, 2^64-1); max0: declared length EXACTLY MaxPayload (the bound is inclusive, as in HdrLaw), payload padded up to it
 KindsWithLen == {"SignatureResponse", "DeltaData", "Ack", "Error"}                  \* kinds whose encoding carries an inner length
 CutC   == {"full", "cut0", "cut5", "cut11"}            \* stream closed inside the 12 header bytes
 Kinds  == {"SignatureRequest", "SignatureResponse", "DeltaData", "Ack", "Error", "Ping", "Pong"}
@@ -78,7 +78,7 @@ HdrOnly(x) == IF x.type \notin 1..7 \/ x.magic # "ok" \/ x.ver # 1 \/ x.len \in 
 Rejects == pc = "Done" =>
   /\ outcome \in {"Ok", "Protocol", "Io"}
   /\ (c.magic # "ok" \/ c.ver # 1 \/ c.type \notin 1..7 \/ c.len \in {"max1", "u32max"}) => outcome # "Ok"
-  /\ outcome = "Ok" => (c.cut = "full" /\ c.len \in {"exact", "pad", "innerhuge"})
+  /\ outcome = "Ok" => (c.cut = "full" /\ c.len \in {"exact", "pad", "max0", "innerhuge"})
 
 Emit == pc = "Done" => PrintT(<<"CASE", ToJson([c |-> c, want |-> outcome, hdr |-> HdrOnly(c)])>>)
 =============================================================================
